@@ -25,7 +25,9 @@ def run(tier, seed):
         gen = [("fault-d2", dict(f, MaxDepth=2), "bfs"), ("core-d3", dict(f, MaxDepth=3, Kinds=core, AttachNames=[""]), "bfs"),
                ("rename-d3", dict(ren, MaxDepth=3, Fids=[1, 2]), "bfs"), ("twoconn-d3", dict(two, MaxDepth=3), "bfs")]
     else:
-        mc = [("fault-d4", dict(f, MaxDepth=4)), ("rename-d5", dict(ren, MaxDepth=5))]
+        # (rename-d5 with three fids does not finish within 50 min; two fids: 330 k states in a minute)
+        mc = [("fault-d4", dict(f, MaxDepth=4)), ("rename-d5", dict(ren, MaxDepth=5, Fids=[1, 2])), ("rename-d4-3fids", dict(ren, MaxDepth=4)),
+              ("twoconn-d5", dict(two, MaxDepth=5))]
         gen = [("fault-d4", dict(f, MaxDepth=4, Kinds=[k for k in session.ALL_KINDS if not k.startswith("Tu")]), "bfs"),
                ("rename-d5", dict(ren, MaxDepth=5, Fids=[1, 2]), "bfs"), ("twoconn-d5", dict(two, MaxDepth=5), "bfs")]
     return session.run("C15", tier, seed, mc, gen, RULE, nontrivial)
